@@ -18,31 +18,32 @@ EXTENDS Integers, Sequences, TLC
 CONSTANTS UName, Seed, NSets, MaxLen
 
 \* letters, in code-point order of the first character of their image
-LDot == 1   \* "."
-LQm  == 2   \* "?"
-A    == 3   \* "a"
-Z    == 4   \* "zope.interface.declarations" (one letter: see Ordering.tla)
-E    == 5   \* U+00E9   Latin-1, 1 byte/char
-L1   == 6   \* U+0101   UCS2 bytes 01 01
-L2   == 7   \* U+0200   UCS2 bytes 00 02
-N1   == 8   \* U+10001  UCS4 bytes 01 00 01 00
-N2   == 9   \* U+10100  UCS4 bytes 00 01 01 00
+NUL  == 1   \* U+0000   (C string functions stop here)
+LDot == 2   \* "."
+LQm  == 3   \* "?"
+A    == 4   \* "a"
+Z    == 5   \* "zope.interface.declarations" (one letter: see Ordering.tla)
+E    == 6   \* U+00E9   Latin-1, 1 byte/char
+L1   == 7   \* U+0101   UCS2 bytes 01 01
+L2   == 8   \* U+0200   UCS2 bytes 00 02
+FW   == 9   \* U+FF5E   BMP, above the surrogates (UTF-16 order differs)
+N1   == 10  \* U+10001  UCS4 bytes 01 00 01 00
+N2   == 11  \* U+10100  UCS4 bytes 00 01 01 00
 MCImplModule == <<Z>>
-TextLetters == <<LDot, LQm, A, Z, E, L1, L2, N1, N2>>
+TextLetters == <<NUL, LDot, LQm, A, Z, E, L1, L2, FW, N1, N2>>
+\* a class __name__ cannot contain U+0000 (type() refuses it)
+ClassLetters == <<LDot, LQm, A, Z, E, L1, L2, FW, N1, N2>>
 
 Obj(k, n, m) == [kind |-> k, name |-> n, module |-> m]
 Grid(k, ns, ms) ==
     [q \in 1..(Len(ns) * Len(ms)) |->
         Obj(k, ns[((q - 1) \div Len(ms)) + 1], ms[((q - 1) % Len(ms)) + 1])]
 
-RECURSIVE Flatten(_)
-Flatten(ss) == IF ss = <<>> THEN <<>> ELSE Head(ss) \o Flatten(Tail(ss))
-
 (***************************************************************************)
 (* quick grid                                                              *)
 (***************************************************************************)
-QNames == << <<>>, <<A>>, <<A, A>>, <<A, L1>>, <<A, L2>>, <<E>>, <<L1>>,
-             <<L2>>, <<N1>>, <<N2>>, <<A, LDot, A>> >>
+QNames == << <<>>, <<A>>, <<A, NUL>>, <<A, A>>, <<A, L1>>, <<A, L2>>, <<E>>,
+             <<L1>>, <<L2>>, <<FW>>, <<N1>>, <<N2>>, <<A, LDot, A>> >>
 QMods  == << <<>>, <<A>>, <<A, L1>>, <<A, L2>>, <<Z>>, <<N1>>, <<N2>> >>
 
 Extras ==
@@ -57,6 +58,7 @@ Extras ==
         Obj("impl", <<L1>>, <<A>>), Obj("impl", <<L2>>, <<A>>),
         Obj("impl", <<A>>, <<L1>>), Obj("impl", <<A>>, <<L2>>),
         Obj("impl", <<N1>>, <<N2>>), Obj("impl", <<N2>>, <<N2>>),
+        Obj("impl", <<FW>>, <<A, NUL>>), Obj("impl", <<N1>>, <<FW>>),
         Obj("impl", <<L2>>, <<A>>),
         Obj("none", <<>>, <<>>),
         Obj("fnokey", <<>>, <<>>),
@@ -71,13 +73,17 @@ UQuick == Grid("iface", QNames, QMods) \o Extras
 (***************************************************************************)
 (* thorough grid: every name of length <= 2 over six letters               *)
 (***************************************************************************)
-TL == <<A, E, L1, L2, N1, N2>>
-TNames == << <<>> >> \o [q \in 1..6 |-> <<TL[q]>>] \o
-          [q \in 1..36 |-> <<TL[((q - 1) \div 6) + 1], TL[((q - 1) % 6) + 1]>>]
+TL == <<NUL, A, E, L1, L2, FW, N1, N2>>
+TNames == << <<>> >> \o [q \in 1..8 |-> <<TL[q]>>] \o
+          [q \in 1..64 |-> <<TL[((q - 1) \div 8) + 1], TL[((q - 1) % 8) + 1]>>]
           \o << <<A, LDot, A>> >>
-TMods == << <<>>, <<A>>, <<A, L1>>, <<A, L2>>, <<Z>>, <<L1>>, <<L2>>,
-            <<N1>>, <<N2>> >>
+TMods == << <<>>, <<A>>, <<A, L1>>, <<A, L2>>, <<Z>> >>
 UThorough == Grid("iface", TNames, TMods) \o Extras
+
+\* the transposed grid: few names, every module of length <= 2 (equal names:
+\* the module decides)
+T2Names == << <<>>, <<A>>, <<L1>>, <<N1>>, <<A, LDot, A>> >>
+UThorough2 == Grid("iface", T2Names, TNames \o << <<Z>> >>) \o Extras
 
 (***************************************************************************)
 (* seeded generator (TLC integers are 32 bit: modulus 65537)               *)
@@ -93,20 +99,27 @@ Blocks(x, b) == IF b = 0 THEN <<>>
 StreamLen == 1200 + NSets * (MaxLen + 3)
 Stream == Blocks(Step(Seed % 60000), (StreamLen \div 100) + 1)
 
-RandStr(off) ==
-    [p \in 1..(Stream[off] % 5) |-> TextLetters[(Stream[off + p] % 9) + 1]]
+RandStr(off, ls) ==
+    [p \in 1..(Stream[off] % 5) |-> ls[(Stream[off + p] % Len(ls)) + 1]]
 PoolSize == 9
-Pool == [q \in 1..PoolSize |-> IF q = 1 THEN <<>> ELSE RandStr(5 * q)]
-RObj(k, q) == Obj(k, Pool[(Stream[100 + 2 * q] % PoolSize) + 1],
-                     Pool[(Stream[101 + 2 * q] % PoolSize) + 1])
+Pool  == [q \in 1..PoolSize |-> IF q = 1 THEN <<>>
+                                ELSE RandStr(5 * q, TextLetters)]
+\* names usable for classes: the same draws without U+0000
+PoolC == [q \in 1..PoolSize |-> IF q = 1 THEN <<>>
+                                ELSE RandStr(5 * q, ClassLetters)]
+RObj(k, q) ==
+    Obj(k, (IF k \in {"impl", "fclass"} THEN PoolC ELSE Pool)
+               [(Stream[100 + 2 * q] % PoolSize) + 1],
+           Pool[(Stream[101 + 2 * q] % PoolSize) + 1])
 URand == [q \in 1..44 |-> RObj("iface", q)] \o
          [q \in 1..10 |-> RObj("impl", 50 + q)] \o
          << Obj("none", <<>>, <<>>), Obj("fnokey", <<>>, <<>>),
             RObj("fnomod", 70), RObj("fkeyed", 1), RObj("fkeyed", 72),
-            RObj("fclass", 2), RObj("fclass", 74) >>
+            RObj("fclass", 74), RObj("fclass", 75) >>
 
 MCU == CASE UName = "quick" -> UQuick
          [] UName = "thorough" -> UThorough
+         [] UName = "thorough2" -> UThorough2
          [] OTHER -> URand
 
 (***************************************************************************)
